@@ -754,3 +754,27 @@ package template
 //@   ensures failedcallee: isnil(esctemplate(e.ns, name)) || isnil(old(asref(esctemplate(e.ns, name), "TT_Template").Tree)) ==> r.state == stateError && !isnil(r.err)
 //@   ensures derivedok: forallkey(w, haskeym(e.derived, w) ==> !isnil(e.derived[w]))
 //@   ensures editkeys: forallref(p, haskeym(e.actionNodeEdits, p) || haskeym(e.templateNodeEdits, p) || haskeym(e.textNodeEdits, p) ==> !isnil(p))
+
+//@ func (e *escaper) escapeAction(c context, n *parse.ActionNode) (r context)
+//@   serves C01 C02 C04 C08
+//@   option embedded nameSpace.esc
+//@   option modifies map[int]opaque#dom map[int]opaque#val
+//@   requires !isnil(n) && !isnil(n.Pipe) && !isnil(e.actionNodeEdits)
+//@   requires cmds: forall(k, 0, len(n.Pipe.Cmds), !isnil(at(n.Pipe.Cmds, k)) && len(at(n.Pipe.Cmds, k).Args) > 0)
+//@   ensures decl: len(n.Pipe.Decl) != 0 ==> same(r, c)
+//@   ensures errsticky: len(n.Pipe.Decl) == 0 && c.state == stateError ==> r.state == stateError
+//@   ensures names: len(n.Pipe.Decl) == 0 && (c.state == stateTag || c.state == stateAttrName || c.state == stateAfterName) ==> r.state == stateError
+//@   ensures unquoted: len(n.Pipe.Decl) == 0 && (c.state == stateBeforeValue || (c.state == stateAttr && c.delim != delimDoubleQuote && c.delim != delimSingleQuote)) && (len(c.attr.name) > 0 || len(c.attr.names) > 0) ==> r.state == stateError
+//@   ensures accepted: len(n.Pipe.Decl) == 0 && r.state != stateError ==> r.state == nudgest(c.state) && r.delim == nudgedl(c.state, c.delim) && same(r.element, c.element) && same(r.attr, c.attr) && same(r.linkRel, c.linkRel) && same(r.scriptType, c.scriptType)
+//@   ensures recorded: len(n.Pipe.Decl) == 0 && r.state != stateError ==> haskeym(e.actionNodeEdits, n)
+//@   ensures failedrecordsnothing: len(n.Pipe.Decl) != 0 || r.state == stateError ==> forallref(p, haskeym(e.actionNodeEdits, p) == old(haskeym(e.actionNodeEdits, p)))
+//@   ensures errcarries: r.state == stateError && c.state != stateError ==> !isnil(r.err)
+//@   demonstrates C02-url-split-over-actions context_forgets_dynamic_prefix: len(n.Pipe.Decl) == 0 && r.state != stateError ==> seqeq(r.attr.value, c.attr.value) && r.attr.ambiguousValue == c.attr.ambiguousValue
+
+//@ func (e *escaper) editActionNode(n *parse.ActionNode, cmds []string) ()
+//@   serves C01 C02 C06
+//@   option embedded nameSpace.esc
+//@   option modifies map[int]opaque#dom map[int]opaque#val
+//@   requires !isnil(e.actionNodeEdits)
+//@   ensures recorded: haskeym(e.actionNodeEdits, n)
+//@   ensures others: forallref(p, p != n ==> haskeym(e.actionNodeEdits, p) == old(haskeym(e.actionNodeEdits, p)))
